@@ -143,6 +143,8 @@ class Universe:
                     self.op(c)
                 for c in _walk(b._last_op, "_prev_op", len(self.ops) + 64):  # pyright: ignore
                     self.op(c)
+                for u in _walk(b.first_use, "_next_use", 100_000):   # users of the block (e.g. a not yet inserted branch op)
+                    self.op(u.operation)
                 changed = True
             while nr < len(self.regions):
                 r = self.regions[nr]
